@@ -62,6 +62,8 @@ M = [
   "      return small_vector_iterator (m_ptr - n);", "      return small_vector_iterator (m_ptr + n);"),
  ("M28-iterator-postdec", ["C01"], "small_vector_iterator::operator--(int) returns the decremented iterator", HDR,
   "      return small_vector_iterator (m_ptr--);", "      return small_vector_iterator (--m_ptr);"),
+ ("M29-growth-no-saturation", ["C12"], "capacity doubling without the saturation test (2*capacity wraps / truncates near max_size)", HDR,
+  "        if (get_max_size () - current_capacity <= current_capacity)\n          return get_max_size ();\n", ""),
  # negative controls: behaviour-preserving edits, every check must stay silent
  ("N01-growth-1.5", [], "NEGATIVE CONTROL: growth factor 1.5 (allowed by C14)", HDR,
   "        const size_ty new_capacity = 2 * current_capacity;", "        const size_ty new_capacity = current_capacity + (current_capacity / 2);"),
